@@ -223,6 +223,16 @@ func cmdCheck(args []string) {
 			}
 		}
 	}
+	if irep := genInducts(l.prog, l.cs, id); len(irep.Obls) > 0 || irep.Err != "" {
+		if irep.Err != "" {
+			genErrs = append(genErrs, "lemma: "+irep.Err)
+		}
+		lfc := &FuncContract{}
+		for _, o := range irep.Obls {
+			obls = append(obls, o)
+			oblFC[o] = lfc
+		}
+	}
 	if lrep := genLemmas(l.prog, l.cs, id); len(lrep.Obls) > 0 || lrep.Err != "" {
 		if lrep.Err != "" {
 			genErrs = append(genErrs, "lemma: "+lrep.Err)
@@ -257,7 +267,7 @@ func cmdCheck(args []string) {
 	var wgk sync.WaitGroup
 	wgk.Add(2)
 	go func() { defer wgk.Done(); resKnown = dischargeAll(oblsKnown, outDir, 3) }()
-	go func() { defer wgk.Done(); resCover = dischargeAll(oblsCover, outDir, 5) }()
+	go func() { defer wgk.Done(); resCover = dischargeAll(oblsCover, outDir, 3) }()
 	res := dischargeAll(oblsMain, outDir, timeout)
 	wgk.Wait()
 	// one retry with a longer limit for undecided obligations
